@@ -306,6 +306,10 @@ pub struct Scenario {
     pub sched: SchedSpec,
     /// byte every fresh heap block is filled with
     pub heap_fill: u8,
+    /// order of the problem builder's setter calls (permutation index 0..6 of
+    /// observations / weights / epsilon)
+    #[serde(default)]
+    pub builder_order: u8,
 }
 
 impl Scenario {
